@@ -119,7 +119,16 @@ class Run(object):
                 out.append(ci)
         return out
 
+    def _too_big(self, tt):
+        size = float(tt.ranks[0]) * float(tt.ranks[-1])
+        for a, b in zip(tt.row_dims, tt.col_dims):
+            size *= float(a) * float(b)
+        return size * max(1, max(tt.ranks)) > 4 * MAX_DENSE or max(tt.ranks) > MAX_RANK_STORE
+
     def _store(self, dest, tt, prov, ancestors=frozenset()):
+        if self._too_big(tt):
+            self.probes["result_too_large_not_stored"] += 1
+            return False
         snap = M.Snapshot(tt)
         if not snap.finite:
             self.probes["result_not_finite_not_stored"] += 1
@@ -297,7 +306,7 @@ class Run(object):
             p = M.structural_problem(tt)
             if p is not None:
                 self._viol("inconsistent-target(%s)" % api, "O2", {"problem": p})
-            if spec.get("consumes"):
+            if spec.get("consumes") or self._too_big(tt):
                 self._drop(target)
             else:
                 snap = M.Snapshot(tt)
@@ -357,6 +366,15 @@ def api_name(rec):
         return "evp.power_method"
     if name == "tdmd":
         return "tdmd.tdmd_" + str(w)
+    if name == "dd_transform":
+        return ("regression." if str(w).startswith("mandy") else "transform.") + str(w)
+    if name == "dd_arr":
+        return "regression.arr"
+    if name == "dd_tedmd":
+        return "tedmd.amuset_" + str(w)
+    if name == "dd_build":
+        return {"ulam_2d": "ulam.ulam_2d", "ulam_3d": "ulam.ulam_3d", "slim_mme": "slim.slim_mme",
+                "slim_mme_hom": "slim.slim_mme_hom"}.get(w, "models." + str(a.get("model")))
     if name == "ctor":
         return "tt." + str(a.get("kind"))
     if name == "read":
@@ -1214,6 +1232,223 @@ def _tdmd():
         a = rec["args"]
         f = tdmd.tdmd_exact if a["which"] == "exact" else tdmd.tdmd_standard
         return f(A["x"], A["y"], threshold=a["threshold"], ortho_l=a["ortho_l"], ortho_r=a["ortho_r"])
+    return choose, execute
+
+
+
+# ---------------------------------------------------------------- data-driven / model routines (O3 on every returned TT;
+# O1 for the TT arguments of arr and tdmd)
+def _basis_list(tdt, spec):
+    """spec: list over modes of lists of [family, index, param]; returns transform.Function objects."""
+    fam = {"const": lambda i, p: tdt.ConstantFunction(i), "id": lambda i, p: tdt.Identity(i),
+           "mono": lambda i, p: tdt.Monomial(i, int(p)), "sin": lambda i, p: tdt.Sin(i, float(p)),
+           "cos": lambda i, p: tdt.Cos(i, float(p)), "leg": lambda i, p: tdt.Legendre(i, int(p)),
+           "gauss": lambda i, p: tdt.GaussFunction(i, 0.0, float(p))}
+    return [[fam[f](i, p) for f, i, p in mode] for mode in spec]
+
+
+def _rand_basis(r, d, modes, sizes):
+    out = []
+    for k in range(modes):
+        n = sizes[k]
+        mode = [["const", 0, 0]] if r.random() < 0.6 else []
+        while len(mode) < n:
+            f = r.choice(("id", "mono", "sin", "cos", "leg", "gauss"))
+            prm = {"id": 0, "mono": r.randint(2, 3), "sin": r.choice((1.0, 2.0)), "cos": r.choice((1.0, 0.5)),
+                   "leg": r.randint(1, 3), "gauss": r.choice((0.5, 1.0))}[f]
+            mode.append([f, r.randrange(d), prm])
+        out.append(mode[:n])
+    return out
+
+
+_SCALAR_FUNS = {"one": lambda t: 1, "id": lambda t: t, "sq": lambda t: t ** 2, "cube": lambda t: t ** 3,
+                "sin": lambda t: np.sin(t), "cos": lambda t: np.cos(t)}
+
+
+@op("dd_transform", group="data", weight=2.0)
+def _dd_transform():
+    def choose(ctx):
+        r = ctx.rnd
+        d = r.randint(1, 3)
+        m = r.randint(1, 6)
+        which = r.choice(("basis_decomposition", "coordinate_major", "function_major", "hocur", "mandy_cm", "mandy_fm"))
+        a = {"which": which, "d": d, "m": m}
+        if which in ("basis_decomposition", "hocur"):
+            modes = r.randint(1, 4)
+            a["basis"] = _rand_basis(r, d, modes, [r.randint(1, 3) for _ in range(modes)])
+            if which == "hocur":
+                a["ranks"] = r.choice((1, 2, 4, 8))
+                a["repeats"] = r.randint(1, 2)
+                a["multiplier"] = r.choice((2, 10))
+                a["progress"] = r.random() < 0.3
+            elif r.random() < 0.2:
+                a["single_core"] = r.randrange(modes)
+        else:
+            a["phi"] = [r.choice(sorted(_SCALAR_FUNS)) for _ in range(r.randint(1, 3))]
+            a["add_one"] = r.random() < 0.5
+            a["threshold"] = r.choice((0.0, 1e-10, 1e-3))
+            if which in ("coordinate_major", "function_major") and r.random() < 0.2:
+                a["single_core"] = 0
+        return {"op": "dd_transform", "in": {}, "dest": ctx.dest(1), "args": a}
+
+    def execute(run, rec, A, g):
+        import scikit_tt.data_driven.transform as tdt
+        import scikit_tt.data_driven.regression as reg
+        a = rec["args"]
+        x = g.uniform(-1, 1, size=(a["d"], a["m"]))
+        w = a["which"]
+        if w == "basis_decomposition":
+            return tdt.basis_decomposition(x, _basis_list(tdt, a["basis"]), single_core=a.get("single_core"))
+        if w == "hocur":
+            return tdt.hocur(x, _basis_list(tdt, a["basis"]), a["ranks"], repeats=a["repeats"], multiplier=a["multiplier"],
+                             progress=a["progress"])
+        phi = [_SCALAR_FUNS[n] for n in a["phi"]]
+        if w == "coordinate_major":
+            return tdt.coordinate_major(x, phi, single_core=a.get("single_core"))
+        if w == "function_major":
+            return tdt.function_major(x, phi, add_one=a["add_one"], single_core=a.get("single_core"))
+        y = g.uniform(-1, 1, size=(a["d"], a["m"]))
+        if w == "mandy_cm":
+            return reg.mandy_cm(x, y, phi, threshold=a["threshold"])
+        return reg.mandy_fm(x, y, phi, threshold=a["threshold"], add_one=a["add_one"])
+    return choose, execute
+
+
+@op("dd_arr", roles=("initial_guess",), group="data", weight=1.5)
+def _dd_arr():
+    def choose(ctx):
+        v = ctx.pick(lambda m: is_vec(m) and closed(m) and m[0] >= 1 and max(m[1]) <= 3 and max(m[3]) <= 4)
+        if v is None or not ctx.tame(v):
+            return None
+        r = ctx.rnd
+        m_ = ctx.meta(v)
+        d = r.randint(1, 3)
+        a = {"d": d, "m": r.randint(2, 6), "k": r.randint(1, 2), "basis": _rand_basis(r, d, m_[0], list(m_[1])),
+             "repeats": r.randint(1, 2), "rcond": r.choice((1e-2, 1e-8)), "progress": r.random() < 0.3}
+        return {"op": "dd_arr", "in": {"initial_guess": v}, "dest": ctx.dest(a["k"]), "args": a}
+
+    def execute(run, rec, A, g):
+        import scikit_tt.data_driven.transform as tdt
+        import scikit_tt.data_driven.regression as reg
+        a = rec["args"]
+        t = A["initial_guess"]
+        if [len(mo) for mo in a["basis"]] != list(t.row_dims):
+            raise Skip()
+        x = g.uniform(-1, 1, size=(a["d"], a["m"]))
+        y = g.uniform(-1, 1, size=(a["k"], a["m"]))
+        return reg.arr(x, y, _basis_list(tdt, a["basis"]), t, repeats=a["repeats"], rcond=a["rcond"], progress=a["progress"])
+    return choose, execute
+
+
+@op("dd_tedmd", group="data", weight=1.5)
+def _dd_tedmd():
+    def choose(ctx):
+        r = ctx.rnd
+        d = r.randint(1, 2)
+        modes = r.randint(1, 3)
+        a = {"which": r.choice(("hosvd", "hocur")), "d": d, "m": r.randint(3, 8),
+             "basis": _rand_basis(r, d, modes, [r.randint(2, 3) for _ in range(modes)]), "sets": r.choice((1, 1, 2)),
+             "threshold": r.choice((1e-2, 1e-8)), "max_rank": r.choice((None, 3)), "progress": r.random() < 0.2,
+             "ef_tf": r.random() < 0.2, "st_tf": r.random() < 0.2}
+        return {"op": "dd_tedmd", "in": {}, "dest": ctx.dest(2), "args": a}
+
+    def execute(run, rec, A, g):
+        import scikit_tt.data_driven.transform as tdt
+        import scikit_tt.data_driven.tedmd as tedmd
+        a = rec["args"]
+        m = a["m"]
+        x = g.uniform(-1, 1, size=(a["d"], m))
+        xi, yi = np.arange(0, m - 1), np.arange(1, m)
+        if a["sets"] == 2:
+            xi, yi = [np.arange(0, m - 1), np.arange(0, m - 2)], [np.arange(1, m), np.arange(2, m)]
+        b = _basis_list(tdt, a["basis"])
+        if a["which"] == "hosvd":
+            return tedmd.amuset_hosvd(x, xi, yi, b, threshold=a["threshold"], max_rank=_mr(a["max_rank"]), progress=a["progress"],
+                                      ef_tf=a["ef_tf"], st_tf=a["st_tf"])
+        return tedmd.amuset_hocur(x, xi, yi, b, max_rank=(a["max_rank"] or 1000), multiplier=2, progress=a["progress"])
+    return choose, execute
+
+
+@op("dd_build", group="data", weight=2.0)
+def _dd_build():
+    def choose(ctx):
+        r = ctx.rnd
+        which = r.choice(("ulam_2d", "ulam_3d", "slim_mme", "slim_mme_hom", "model", "model"))
+        a = {"which": which}
+        if which.startswith("ulam"):
+            a["states"] = [r.randint(1, 4) for _ in range(2 if which == "ulam_2d" else 3)]
+            a["n"] = r.randint(1, 12)
+            a["simulations"] = r.randint(1, 5)
+        elif which.startswith("slim"):
+            order = r.randint(2, 4)
+            a["state_space"] = [r.randint(2, 3)] * order if which == "slim_mme_hom" or r.random() < 0.5 else [r.randint(2, 3) for _ in range(order)]
+            a["cyclic"] = r.random() < 0.5
+            a["threshold"] = r.choice((0, 1e-12))
+            a["n_single"] = r.randint(0, 2)
+            a["n_two"] = r.randint(0, 3)
+        else:
+            a["model"] = r.choice(("ising", "qfa", "qfan", "simon", "qft", "iqft", "shor", "exciton_chain", "co_oxidation",
+                                   "fpu_coefficients", "kuramoto_coefficients", "signaling_cascade", "toll_station",
+                                   "two_step_destruction"))
+            a["n"] = r.randint(1, 4)
+            a["flag"] = r.random() < 0.5
+        return {"op": "dd_build", "in": {}, "dest": ctx.dest(2), "args": a}
+
+    def execute(run, rec, A, g):
+        a = rec["args"]
+        w = a["which"]
+        if w.startswith("ulam"):
+            import scikit_tt.data_driven.ulam as ulam
+            st = a["states"]
+            k = len(st)
+            tr = np.vstack([g.integers(1, st[i % k] + 1, size=a["n"]) for i in range(2 * k)])
+            return (ulam.ulam_2d if k == 2 else ulam.ulam_3d)(tr, st, a["simulations"])
+        if w.startswith("slim"):
+            import scikit_tt.slim as slim
+            ss = a["state_space"]
+            order = len(ss)
+
+            def single(i):
+                return [[int(g.integers(0, ss[i])), int(g.integers(0, ss[i])), float(g.uniform(0.1, 2))] for _ in range(a["n_single"])]
+
+            def two(i):
+                j = (i + 1) % order
+                return [[int(g.integers(0, ss[i])), int(g.integers(0, ss[i])), int(g.integers(0, ss[j])), int(g.integers(0, ss[j])),
+                         float(g.uniform(0.1, 2))] for _ in range(a["n_two"])]
+            if w == "slim_mme_hom":
+                return slim.slim_mme_hom(ss, single(0), two(0), cyclic=a["cyclic"], threshold=a["threshold"])
+            nb = order if a["cyclic"] else order - 1
+            return slim.slim_mme(ss, [single(i) for i in range(order)], [two(i) for i in range(nb)], threshold=a["threshold"])
+        import scikit_tt.models as mdl
+        n = a["n"]
+        mname = a["model"]
+        if mname == "ising":
+            return mdl.ising(n + 1, 1.0, 0.5)
+        if mname == "qfa":
+            return mdl.qfa()
+        if mname == "qfan":
+            return mdl.qfan(n)
+        if mname == "simon":
+            return mdl.simon()
+        if mname == "qft":
+            return mdl.qft(n + 1)
+        if mname == "iqft":
+            return mdl.iqft(n + 1)
+        if mname == "shor":
+            return mdl.shor([2, 4, 7, 8, 11, 13][n % 6])
+        if mname == "exciton_chain":
+            return mdl.exciton_chain(n + 1, 0.1, 0.2)
+        if mname == "co_oxidation":
+            return mdl.co_oxidation(n + 1, 1e2, cyclic=a["flag"])
+        if mname == "fpu_coefficients":
+            return mdl.fpu_coefficients(n + 1)
+        if mname == "kuramoto_coefficients":
+            return mdl.kuramoto_coefficients(n + 1, np.linspace(-1, 1, n + 1))
+        if mname == "signaling_cascade":
+            return mdl.signaling_cascade(n + 1)
+        if mname == "toll_station":
+            return mdl.toll_station(n + 1, n + 1)
+        return mdl.two_step_destruction(1.0, 2.0, 1.0, n + 2)
     return choose, execute
 
 
